@@ -246,6 +246,8 @@ type position struct {
 	op      func(k *kindInfo, v string) string
 	read    func(k *kindInfo, v string) string // expression over X (the written message)
 	target  string                             // "m" (pre-existing message) or "r" (constructed by op)
+	has     func(k *kindInfo) string           // presence test over X (default: proto.has(X, "f_<kind>"))
+	ext     bool                               // extension field: the text round trip is not judged (see Assumptions)
 }
 
 func okSrc(k *kindInfo) string {
@@ -329,6 +331,25 @@ var positions = []position{
 		read: func(k *kindInfo, v string) string {
 			return fmt.Sprintf(`[k for k in X.mk_%s if X.mk_%s[k] == 1]`, k.name, k.name)
 		}},
+	// extension fields of every kind (reached only through set_field / get_field)
+	{name: "ext_set_field", group: "extension", target: "m", ext: true,
+		op:   func(k *kindInfo, v string) string { return fmt.Sprintf("proto.set_field(m, S.x_%s, %s)", k.name, v) },
+		read: func(k *kindInfo, v string) string { return fmt.Sprintf("proto.get_field(X, S.x_%s)", k.name) },
+		has:  func(k *kindInfo) string { return fmt.Sprintf("proto.has(X, S.x_%s)", k.name) }},
+	{name: "ext_overwrite", group: "extension", target: "m", ext: true,
+		op: func(k *kindInfo, v string) string {
+			return fmt.Sprintf("proto.set_field(m, S.x_%s, %s)\nproto.set_field(m, S.x_%s, %s)", k.name, okSrc(k), k.name, v)
+		},
+		read: func(k *kindInfo, v string) string { return fmt.Sprintf("proto.get_field(X, S.x_%s)", k.name) },
+		has:  func(k *kindInfo) string { return fmt.Sprintf("proto.has(X, S.x_%s)", k.name) }},
+	{name: "ext_rep_set_field", group: "repeated_extension", element: true, target: "m", ext: true,
+		op:   func(k *kindInfo, v string) string { return fmt.Sprintf("proto.set_field(m, S.xr_%s, [%s, %s])", k.name, okSrc(k), v) },
+		read: func(k *kindInfo, v string) string { return fmt.Sprintf("proto.get_field(X, S.xr_%s)[1]", k.name) }},
+	{name: "ext_rep_append", group: "repeated_extension", element: true, target: "m", ext: true,
+		op: func(k *kindInfo, v string) string {
+			return fmt.Sprintf("proto.set_field(m, S.xr_%s, [%s])\nproto.get_field(m, S.xr_%s).append(%s)", k.name, okSrc(k), k.name, v)
+		},
+		read: func(k *kindInfo, v string) string { return fmt.Sprintf("proto.get_field(X, S.xr_%s)[1]", k.name) }},
 	{name: "map_in", group: "map_key", element: true, mapKey: true, lookup: true, target: "m",
 		setup: func(k *kindInfo) string { return fmt.Sprintf(`mk_%s = {%s: 0}`, k.name, okSrc(k)) },
 		op:    func(k *kindInfo, v string) string { return fmt.Sprintf(`r = %s in m.mk_%s`, v, k.name) }},
@@ -505,7 +526,11 @@ func runECase(e *env, th *starlark.Thread, c eCase) eResult {
 	readSrc := p.read(k, v.src)
 	check := func(stage string, msg *starlarkproto.Message) string {
 		if w.typ == "cleared" {
-			has, err, pan := evalExpr(e, th, fmt.Sprintf(`proto.has(X, "f_%s")`, k.name), withVars(e, "X", msg))
+			hasSrc := fmt.Sprintf(`proto.has(X, "f_%s")`, k.name)
+			if p.has != nil {
+				hasSrc = p.has(k)
+			}
+			has, err, pan := evalExpr(e, th, hasSrc, withVars(e, "X", msg))
 			if p.name == "nested_dict" {
 				has, err, pan = evalExpr(e, th, fmt.Sprintf(`proto.has(X.f_msg, "f_%s")`, k.name), withVars(e, "X", msg))
 			}
@@ -537,6 +562,20 @@ func runECase(e *env, th *starlark.Thread, c eCase) eResult {
 		return fail("readback", "%s [%s]", bad, strings.ReplaceAll(prog, "\n", "; "))
 	}
 	for _, form := range []string{"binary", "text"} {
+		if p.ext {
+			// proto.unmarshal has no access to the thread's descriptor pool, so
+			// extensions of dynamically loaded files come back as unknown fields
+			// (binary) or are refused (text); only that marshalling does not
+			// panic is judged for them
+			src := "proto.marshal(X)"
+			if form == "text" {
+				src = "proto.marshal_text(X)"
+			}
+			if _, _, pan := evalExpr(e, th, src, withVars(e, "X", x)); pan != "" {
+				return fail("panic", "%s marshalling panicked: %s [%s]", form, pan, prog)
+			}
+			continue
+		}
 		src := "proto.unmarshal(T, proto.marshal(X))"
 		if form == "text" {
 			src = "proto.unmarshal_text(T, proto.marshal_text(X))"
